@@ -29,6 +29,7 @@ RULE = ('Hypothesis generates C01 (distance-independent) and C02 (distance-depen
         'non-finite value before a finite one.')
 RULE += (' ' + 'Also varied: everything the C01 / C02 generators vary (mixed filter lists, stored units, long model names, cube validity flags).')
 RULE += (' ' + 'Cube packages fitted at wavelengths may tabulate their slices 1.5..3 per cent off the wavelengths asked for (nearest slice; the extinction coefficient belongs to the wavelength asked for).')
+RULE += (' ' + 'In about half of the cases a second Fitter on the same package (filters reversed) is made before the first is used and kept alive.')
 ASSUMPTIONS = [
     'package order of the models = row order of the convolved-flux files / cube written by the independent writer',
     'predicted fluxes are compared at 1e-9 absolute (dex) + float32 slack when memory-mapped',
@@ -74,6 +75,12 @@ def run_2d(case, ctx):
         for av_range in case['av_ranges']:
             with must_succeed('Fitter()'), quiet():
                 fitter = gen.make_fitter(d, case, av_range)
+            if case.get('memmap') or len(case['sources']) % 2 == 0:
+                # a second Fitter on the same package (filters in reverse order) is made before the first one is used and
+                # stays alive beside it: fitters do not share state
+                with must_succeed('a second Fitter() on the same package'), quiet():
+                    other = gen.make_fitter(d, gen.reversed_case(case), av_range)
+                labels.add('second_fitter_alive')
             for src in case['sources']:
                 probe = of.Ref2D(of.transform_source(src['flags'], src['flux'], src['err']),
                                  case['grid']['logflux'][0], k, av_range[0], av_range[1])
@@ -96,7 +103,7 @@ def run_2d(case, ctx):
                     for j in range(len(k)):
                         want = case['grid']['logflux'][m][j] + av * k[j] - 2. * sc
                         gotv = float(info.model_fluxes[i][j])
-                        if abs(gotv - want) > tol * (1. + abs(want)):
+                        if not (abs(gotv - want) <= tol * (1. + abs(want))):
                             fail('%s row %d (%s): predicted log flux in band %d is %r, but log10 F_model + av*k - 2*sc = %r' % (
                                 what, i, name, j, gotv, want), 'c04:model_fluxes')
             del fitter
@@ -119,6 +126,10 @@ def run_3d(case, ctx):
         for av_range in case['av_ranges']:
             with must_succeed('Fitter()'), quiet():
                 fitter = gen.make_fitter(d, case, av_range, distance_range=dr)
+            if case.get('memmap') or len(case['sources']) % 2 == 0:
+                with must_succeed('a second Fitter() on the same package'), quiet():
+                    other = gen.make_fitter(d, gen.reversed_case(case), av_range, distance_range=dr)
+                labels.add('second_fitter_alive')
             for src in case['sources']:
                 bands = of.transform_source(src['flags'], src['flux'], src['err'])
                 if not any(b[0] == 'fit' and kk != 0. for b, kk in zip(bands, k)):
@@ -149,7 +160,7 @@ def run_3d(case, ctx):
                         for j in range(len(k)):
                             want = row[j] + av * k[j]
                             gotv = float(info.model_fluxes[i][j])
-                            if abs(gotv - want) > tol * (1. + abs(want)):
+                            if not (abs(gotv - want) <= tol * (1. + abs(want))):
                                 bad = ('%s row %d (%s): predicted log flux in band %d is %r, but the model at d=%r kpc in that '
                                        'aperture plus av*k is %r' % (what, i, name, j, gotv, ref.distances[js[0]], want))
                                 break
